@@ -119,6 +119,10 @@ def generate(seed, tier):
         for ws in sc["worlds"]:
             if ws["world"] == "numpy":
                 ws["chunk"] = None      # the shipped default chunk is really crossed
+    # further stages: the same caller-owned buffers refilled in place with other records (caches keyed by buffer identity)
+    if not huge_k and rw.random() < 0.35:
+        sc["refills"] = [dict(data, rng=rw.randrange(2 ** 31), recipe=rw.choice(["noise", "sine+noise", "randwalk", "trend+noise"]))
+                         for _ in range(rw.randrange(1, 3))]
     if via == "analyzer":
         # extra bins before/after so that the bin of interest is not the only one (dispatch alignment)
         nb = rw.randrange(0, 3)
@@ -163,11 +167,22 @@ def _via_analyzer(sc, ws, x, y, out):
 
 
 def execute(sc, out):
-    rec = SC.make_record(sc["data"])
-    if sc["mode"] == "csd":
-        x, y = np.ascontiguousarray(rec[0]), np.ascontiguousarray(rec[1])
-    else:
-        x, y = np.ascontiguousarray(rec), None
+    specs = [sc["data"]] + list(sc.get("refills", []))
+    bufx = np.empty(sc["N"], dtype=np.float64)
+    bufy = np.empty(sc["N"], dtype=np.float64) if sc["mode"] == "csd" else None
+    for si, spec in enumerate(specs):
+        rec = SC.make_record(spec)
+        if sc["mode"] == "csd":
+            bufx[:] = rec[0]
+            bufy[:] = rec[1]
+        else:
+            bufx[:] = rec
+        if si:
+            out.count("buffer_refilled_in_place")
+        _execute_stage(sc, out, bufx, bufy, si)
+
+
+def _execute_stage(sc, out, x, y, stage):
     L = sc["L"]
     starts = np.array(sc["starts"], dtype=np.int64)
     K = len(starts)
@@ -216,14 +231,14 @@ def execute(sc, out):
                 if g != g:
                     out.count("poison_read")
                 out.violate(f"stat_differs_from_definition:{kind}", f"backend={site_w} mode={sc['mode']} order={sc['order']} stat={nm}",
-                            f"world={world} via={sc['via']} L={L} K={K} omega={omega!r}: got {g!r}, definition gives {r!r}, budget {tol:.3e}")
+                            f"stage {stage} world={world} via={sc['via']} L={L} K={K} omega={omega!r}: got {g!r}, definition gives {r!r}, budget {tol:.3e}")
     # sign of Im mu across worlds
     if sc["mode"] == "csd" and abs(ref[3]) > 100 * tol2:
         for world, res in got.items():
             if res[3] == res[3] and res[3] * ref[3] < 0:
                 site_w = {"sim-numba": "numba", "real-numba": "numba", "numpy": "numpy", "sim-cuda": "cuda"}[world]
                 out.violate("cross_spectrum_sign", f"backend={site_w}", f"Im mean X conj(Y): {res[3]!r} vs definition {ref[3]!r} (world {world})")
-    out.nontrivial = bool(sim_nontrivial)
+    out.nontrivial = bool(out.nontrivial or sim_nontrivial)
     out.sim_time_s += 0.0
     out.summary = {"mode": sc["mode"], "order": sc["order"], "L": L, "K": K, "via": sc["via"], "worlds": [w_["world"] for w_ in sc["worlds"]]}
 
@@ -235,6 +250,8 @@ def size(sc):
 
 
 def shrink_candidates(sc):
+    for i in range(len(sc.get("refills", []))):
+        c = copy.deepcopy(sc); del c["refills"][i]; yield c
     # fewer worlds
     if len(sc["worlds"]) > 1:
         for i in range(len(sc["worlds"])):
@@ -268,6 +285,8 @@ def shrink_candidates(sc):
         c = copy.deepcopy(sc)
         c["N"] = minN
         c["data"]["N"] = minN
+        for r_ in c.get("refills", []):
+            r_["N"] = minN
         yield c
     if any(s > 0 for s in sc["starts"]):
         c = copy.deepcopy(sc)
